@@ -28,7 +28,14 @@ RULE = ("BASE = 2-8 generated entries (files, directories, symlinks, exec "
         "disjoint (git): changed path sets disjoint and the union is a valid "
         "tree. Options: merge type, criss-cross history whose LCAs carry "
         "BASE's tree (drives _entries_lca), part of THIS's script left "
-        "uncommitted (merge3 only), explicit or searched BASE. Git cases keep "
+        "uncommitted (merge3 only), explicit or searched BASE; criss-cross "
+        "histories whose LCAs differ (one LCA made a delta that both tips "
+        "merged; the laws are then relative to BASE + delta). A third of the "
+        "bzr disjoint cases start from directed shapes around parent "
+        "resolution: one side renames / moves directory D (optionally "
+        "creating a new directory at D's old path), the other side adds, "
+        "moves or renames entries in D, also with the sides swapped. Git "
+        "cases keep "
         "all file contents / symlink targets pairwise dissimilar (rename and "
         "copy inference works on content) except a 1-in-6 class; inputs of "
         "five classes behind open findings (symlink loops; git: similar "
@@ -59,7 +66,8 @@ LEVEL_TEXT = ("Sampled exploration of the four algebraic merge laws on real "
               "by an independent id / path model.")
 LEVEL_NOTE = ("Trees bounded to ~14 entries and scripts to 5 ops per side; "
               "the union law needs a definition of 'disjoint' (stated in the "
-              "rule); criss-cross histories only with LCAs equal to BASE.")
+              "rule); criss-cross histories have LCAs equal to BASE or one LCA "
+              "carrying a delta that both tips merged.")
 REGISTERED = True
 NONTRIVIAL_FLOOR = {"quick": 150, "thorough": 3000}
 
@@ -372,9 +380,14 @@ def build_spec(case):
     revs = [rev(0, "r0", [], case["base"])]
     tbase = obase = "r0"
     if case["criss"]:
-        revs += [rev(1, "x1", ["r0"], []), rev(2, "y1", ["r0"], []),
+        # criss-cross: x2 and y2 merged each other's parent; both carry the
+        # tree BASE' = r0 + criss_delta (the delta was made in x1 and arrives
+        # in y2 through the merge), so the LCAs x1 / y1 differ when the delta
+        # is not empty and the laws are stated relative to BASE'
+        da = case.get("criss_delta") or []
+        revs += [rev(1, "x1", ["r0"], da), rev(2, "y1", ["r0"], []),
                  rev(3, "x2", ["x1", "y1"], []),
-                 rev(4, "y2", ["y1", "x1"], [])]
+                 rev(4, "y2", ["y1", "x1"], da)]
         tbase, obase = "x2", "y2"
     other = "o"
     if fam == "other=base" and case["mode"] in ("direct", "pointless"):
@@ -439,7 +452,7 @@ def run(case, env):
     wt, models, idmap = history.build_wt(spec, os.path.join(d, "t"),
                                          format=case["fmt"])
     root = wt.basedir
-    m_base = models["r0"]
+    m_base = models["x2"] if case["criss"] else models["r0"]
     m_this = tm.clone(models["t"])
     if git:
         # (a) a git working tree can lose index entries when it commits
@@ -585,7 +598,8 @@ def label(case, m_base):
         return None
     feat = ("kindchange" if "kindchange" in f else
             "rename" if "rename" in f else "plain")
-    extra = ("criss" if case["criss"] else
+    extra = ("criss-lcas-differ" if case.get("criss_delta") else
+             "criss" if case["criss"] else
              "dirty" if case["dirty"] else case["mode"])
     return "%s/%s/%s/%s/%s" % (case["fmt"], case["mtype"], fam, feat, extra)
 
@@ -770,6 +784,13 @@ def gen_case(draw, fmt="2a", mtypes=("merge3",)):
     fam = draw(st.sampled_from(FAMILIES + ["disjoint", "this=base"]))
     mt = draw(st.sampled_from(list(mtypes)))
     dt, do = [], []
+    da = []
+    if not git and draw(st.integers(0, 5)) == 0:
+        # criss-cross history whose two LCAs differ (see build_spec): the
+        # scripts below are drawn against BASE' = base + da
+        da = draw_script(draw, tm.clone(base), tm.IdSource("a"), kw, 1, 3)
+    root_ops = base_ops
+    base = replay(base, da)
     if fam == "other=base":
         dt = draw_script(draw, tm.clone(base), _ids("t", git), kw, 1, 5,
                          git=git, kindchange=not git, uniq=uniq)
@@ -782,9 +803,9 @@ def gen_case(draw, fmt="2a", mtypes=("merge3",)):
         do = [list(op) for op in dt]
     else:
         pre_t, pre_o = [], []
-        if not git and draw(st.integers(0, 2)) == 0:
+        if not git and not da and draw(st.integers(0, 2)) == 0:
             # directed shapes around parent resolution (see shape_scripts)
-            base_ops, base, pre_t, pre_o = shape_scripts(draw, base_ops, base)
+            root_ops, base, pre_t, pre_o = shape_scripts(draw, base_ops, base)
         mt_ = replay(base, pre_t)
         dt = pre_t + draw_script(draw, mt_, _ids("t", git), kw,
                                  0 if pre_t else 1, 3 if pre_t else 4,
@@ -811,6 +832,10 @@ def gen_case(draw, fmt="2a", mtypes=("merge3",)):
                                      "merger-explicit-base"]))
     criss = (mode not in ("direct", "pointless", "merger-explicit-base")
              and draw(st.integers(0, 19 if git else 3)) == 0)
+    if da:
+        criss = True
+        mode = ("empty-commit" if fam == "other=base" else
+                draw(st.sampled_from(["branch", "merger"])))
     dirty = 0
     if mt == "merge3" and fam != "this=base" and dt and \
             draw(st.integers(0, 3)) == 0:
@@ -820,16 +845,17 @@ def gen_case(draw, fmt="2a", mtypes=("merge3",)):
         if cut > 0 and dt[cut][0] == "add" and dt[cut - 1][0] == "delete" \
                 and dt[cut - 1][1] == dt[cut][1]:
             dirty += 1
-    return {"fmt": fmt, "mtype": mt, "family": fam, "base": base_ops,
-            "dt": dt, "do": do, "mode": mode, "criss": criss, "dirty": dirty}
+    return {"fmt": fmt, "mtype": mt, "family": fam, "base": root_ops,
+            "dt": dt, "do": do, "mode": mode, "criss": criss, "dirty": dirty,
+            "criss_delta": da}
 
 
 def kinds(tier):
     return [
         Kind("bzr-merge3", run, strategy=gen_case("2a", ("merge3",)),
-             examples={"quick": 250, "thorough": 8000}),
+             examples={"quick": 450, "thorough": 8000}),
         Kind("bzr-weave-lca", run, strategy=gen_case("2a", ("weave", "lca")),
-             examples={"quick": 200, "thorough": 8000}),
+             examples={"quick": 300, "thorough": 8000}),
         Kind("git-merge3", run, strategy=gen_case("git", ("merge3",)),
-             examples={"quick": 250, "thorough": 6000}),
+             examples={"quick": 350, "thorough": 6000}),
     ]
